@@ -155,6 +155,53 @@ def ownV : P String := do
   else if k == "I" then pure (bstr KawinV.Flatten.identityOwnership.isShared)
   else failure
 
+/-- one call of a history: scheme E|R|M (M = the user-supplied midpoint iterator), reset T|F, simTime, minDtFrac,
+maxDtFrac, constant proposal h, fuel -/
+def callP : P (Call Float (List Float)) := do
+  let k ← tok; let rs ← bool; let L ← flt; let mn ← flt; let mx ← flt; let h ← flt; let fuel ← nat
+  let sc : Scheme Float (List Float) ← (if k == "E" then pure Scheme.euler else if k == "R" then pure Scheme.rk4
+                                        else if k == "M" then pure (Scheme.custom midIter) else failure)
+  pure { scheme := sc, reset := rs, simTime := L, minFrac := mn, maxFrac := mx, propose := fun _ => Dt.fin h,
+         stopAt := fun _ => false, fuel := fuel }
+
+/-- rk.hist t0 nblocks (ode p q x(list))* ncalls (call)* → `solveCalls`: a history of GenericModel.solve calls on ONE
+model object; per call: model time afterwards, model state afterwards, right-hand-side evaluations since the last reset -/
+def histV : P String := do
+  let t0 ← flt
+  let bl ← lst block
+  let cs ← lst callP
+  let f := rhsBlocks (bl.map Prod.fst)
+  let x0 := bl.flatMap Prod.snd
+  let init : Float × (List Float × Nat) := (t0, (x0, 0))
+  let out := solveCalls (Scheme.stepN listOps f) init cs init
+  pure (" ".intercalate (out.map (fun r => s!"{fout r.1} {flist r.2.1} {r.2.2}")))
+
+def dtypeP : P KawinV.Flatten.DType := do
+  let k ← tok
+  if k == "f64" then pure .f64 else if k == "f32" then pure .f32 else if k == "f16" then pure .f16
+  else if k == "i64" then pure .i64 else if k == "i32" then pure .i32 else failure
+
+/-- typed reference state from (dtype, size) pairs (size 0 = scalar item) and the flat initial values -/
+def typedState : List (KawinV.Flatten.DType × Nat) → List Float → KawinV.Flatten.TState Float
+  | [], _ => []
+  | (ty, 0) :: r, v => (ty, .scalar (v.headD 0.0)) :: typedState r (v.drop 1)
+  | (ty, n) :: r, v => (ty, .arr [n] (v.take n)) :: typedState r (v.drop n)
+
+/-- rk.dtype E|R t0 tf minFrac maxFrac h fuel nblocks (ode p q x(list))* nitems (dtype size)* → the solve loop for a model
+whose state items have the given storage types: every vector travels through `Flatten.deliver` (flattenX ∘ unflattenX by
+the typed reference) on its way to the callbacks (`rk4IterVia` / `eulerIterVia`, `passVia`): nsteps, final time, final state -/
+def solveDtype : P String := do
+  let k ← tok; let t0 ← flt; let tf ← flt; let mn ← flt; let mx ← flt; let h ← flt; let fuel ← nat
+  let bl ← lst block
+  let items ← lst (do let ty ← dtypeP; let n ← nat; pure (ty, n))
+  let f := rhsBlocks (bl.map Prod.fst)
+  let x0 := bl.flatMap Prod.snd
+  let g := KawinV.Flatten.deliver (typedState items x0)
+  let iter ← (if k == "E" then pure (passVia g (eulerIterVia g listOps f))
+              else if k == "R" then pure (passVia g (rk4IterVia g listOps f)) else failure)
+  let r := solveX t0 tf mn mx (fun _ => Dt.fin h) (fun _ => false) iter x0 fuel
+  pure s!"{r.1.steps.length} {fout r.1.cur} {flist r.2}"
+
 def handle (verb : String) : Option (P String) :=
   match verb with
   | "rk.tableau" => some tableau
@@ -165,6 +212,8 @@ def handle (verb : String) : Option (P String) :=
   | "rk.solvefmt" => some solveFmt
   | "rk.rnd" => some rndV
   | "rk.own" => some ownV
+  | "rk.hist" => some histV
+  | "rk.dtype" => some solveDtype
   | _ => none
 
 end KawinV.Drv.C06
